@@ -746,9 +746,7 @@ func (t *Tree) Compile(file string, args []string, out io.Writer) (err error) {
 					s = s.Union(properties[i].s)
 					if !elementConsumes {
 						consumes = false
-						if element.GetType() != TypeNil {
-							nullable = true
-						}
+						nullable = true
 					}
 				}
 
@@ -1172,10 +1170,8 @@ func (t *Tree) Compile(file string, args []string, out io.Writer) (err error) {
 			label++
 			printBegin()
 			printSave(ok)
-			element := n.Front()
-			element.SetParentDetect(n.ParentDetect())
-			element.SetParentMultipleKey(n.ParentMultipleKey())
-			compile(element, ko)
+			/* the case label says which character follows, not that the operand of the lookahead matches it */
+			compile(n.Front(), ko)
 			printRestore(ok)
 			printEnd()
 		case TypePeekNot:
@@ -1183,10 +1179,7 @@ func (t *Tree) Compile(file string, args []string, out io.Writer) (err error) {
 			label++
 			printBegin()
 			printSave(ok)
-			element := n.Front()
-			element.SetParentDetect(n.ParentDetect())
-			element.SetParentMultipleKey(n.ParentMultipleKey())
-			compile(element, ok)
+			compile(n.Front(), ok)
 			printJump(ko)
 			printLabel(ok)
 			printRestore(ok)
